@@ -162,8 +162,6 @@ def matpower(sc):
     except Exception as ex:
         rec["raised"] = True
         rec["raised_text"] = "%s: %s" % (type(ex).__name__, str(ex)[:160])
-    finally:
-        shutil.rmtree(d, ignore_errors=True)
     return dict(sid=sc["sid"], ev=[rec])
 
 
